@@ -176,6 +176,17 @@ func RunWorker(e Engine, tier string, batch uint64, lo, hi, stride int, deadline
 				// confirm and minimise in fresh processes only
 				min, r2 = isolatedMinimize(s, sig, bitmapPath+".cand.json")
 				if min == nil {
+					// not reproducible alone: try it after the runs this worker executed before it
+					var before []int
+					for j := lo; j < idx; j += stride {
+						before = append(before, j)
+					}
+					min, r2 = isolatedWithPrelude(s, sig, bitmapPath+".cand.json", &Prelude{Batch: batch, Tier: tier, Indices: before})
+					if min != nil {
+						out.Extra["violations_needing_a_prelude_of_earlier_runs"]++
+					}
+				}
+				if min == nil {
 					out.Extra["violations_not_reproducible_in_a_fresh_process"]++
 					if out.Trouble == "" {
 						out.Trouble = fmt.Sprintf("run %d reported %s in this process but a fresh process does not reproduce it", idx, sig)
@@ -601,7 +612,7 @@ func RunReplay(path string, verbose bool) int {
 	}
 	if s.Expect != nil && isDeathSig(s.Expect.Signature) {
 		exe, _ := os.Executable()
-		got := execOutcome(exe, path, hangTimeout)
+		got := execOutcome(exe, path, 3*hangTimeout)
 		fmt.Printf("replay: property=%s seed=%d steps=%d outcome in a fresh process: %s\n", s.Property, s.Seed, s.NSteps(), got)
 		if s.Property+"/"+got == s.Expect.Signature {
 			fmt.Println("replay: REPRODUCED (same fatal outcome)")
@@ -614,6 +625,7 @@ func RunReplay(path string, verbose bool) int {
 		}
 		return 3
 	}
+	RunPrelude(e, s, func(p *Script) { e.Exec(p, false) })
 	res := e.Exec(s, true)
 	if verbose {
 		for _, l := range res.Log {
